@@ -41,6 +41,7 @@ import (
 	assetskeeper "github.com/ExocoreNetwork/exocore/x/assets/keeper"
 	assetstypes "github.com/ExocoreNetwork/exocore/x/assets/types"
 	avstypes "github.com/ExocoreNetwork/exocore/x/avs/types"
+	delegationkeeper "github.com/ExocoreNetwork/exocore/x/delegation/keeper"
 	delegationtypes "github.com/ExocoreNetwork/exocore/x/delegation/types"
 	distributiontypes "github.com/ExocoreNetwork/exocore/x/feedistribution/types"
 	epochstypes "github.com/ExocoreNetwork/exocore/x/epochs/types"
@@ -212,6 +213,14 @@ type c09CallDesc struct {
 	Keys    []string          `json:"changed_keys,omitempty"`
 	Tags    []string          `json:"tags,omitempty"`
 	NT      bool              `json:"nt"`
+}
+
+// never JSON null: the known-findings matcher iterates over the list
+func c09Tags(t []string) []string {
+	if t == nil {
+		return []string{}
+	}
+	return t
 }
 
 func c09Strs(xs []string) string {
@@ -511,6 +520,28 @@ func (c *c09Env) pickOp() string {
 	default:
 		return c.opStrs[c.rng.Intn(len(c.opStrs)-1)]
 	}
+}
+
+// the position reported to the staker for its delegation: TokensFromShares(shares, pool share, pool amount)
+func (c *c09Env) position(as, st []byte, op string) *big.Int {
+	acc, err := sdk.AccAddressFromBech32(op)
+	if err != nil || len(as) < 20 || len(st) < 20 {
+		return nil
+	}
+	aid := c.assetID(101, as[:20])
+	dl, err := c.env.App.DelegationKeeper.GetSingleDelegationInfo(c.env.Ctx, c.stakerID(101, st[:20]), aid, acc.String())
+	if err != nil {
+		return nil
+	}
+	oa, err := c.env.App.AssetsKeeper.GetOperatorSpecifiedAssetInfo(c.env.Ctx, acc, aid)
+	if err != nil {
+		return nil
+	}
+	pos, err := delegationkeeper.TokensFromShares(dl.UndelegatableShare, oa.TotalShare, oa.TotalAmount)
+	if err != nil {
+		return nil
+	}
+	return pos.BigInt()
 }
 
 func (c *c09Env) withdrawable(chain uint64, as, st []byte) *big.Int {
@@ -1351,7 +1382,7 @@ func (c *c09Env) doEndBlockItems(tags []string) {
 	c.w.Count(fmt.Sprintf("items.left_after=%d", len(left)))
 	c.w.Count("items.failing=" + fmt.Sprint(nf))
 	term := cApp("CItems", cApp("mkItems", cNat(n), cNat(nf), c09Strs(classes), cBool(pa)))
-	c.w.Add(term, map[string]interface{}{"suite": "c09", "kind": "EndBlockItems", "n": n, "failing": nf, "pattern": pattern, "diff": classes, "diff_keys": keys, "panic": pa, "tags": tags, "nt": true})
+	c.w.Add(term, map[string]interface{}{"suite": "c09", "kind": "EndBlockItems", "n": n, "failing": nf, "pattern": pattern, "diff": classes, "diff_keys": keys, "panic": pa, "tags": c09Tags(tags), "nt": true})
 	c.w.Count("kind=EndBlockItems")
 	c.nCase++
 }
@@ -1433,6 +1464,12 @@ func runC09(a *Args) error {
 	c.doDelegation("Delegate", nil, 101, gw, as0, st1, c.opStrs[len(c.opStrs)-1], big.NewInt(1), true)
 	c.doDelegation("Undelegate", nil, 101, gw, as0, st1, c.opStrs[0], big.NewInt(3_000_001), true)
 	c.doDelegation("Undelegate", nil, 101, gw, as0, st1, c.opStrs[0], big.NewInt(1_000_000), false)
+	// the pool of operator 0 has been slashed (more than one share per token): the whole reported position can be
+	// undelegated although its shares exceed the staker's shares by rounding dust; one unit more cannot
+	if pos := c.position(as0, st1, c.opStrs[0]); pos != nil {
+		c.doDelegation("Undelegate", nil, 101, gw, as0, st1, c.opStrs[0], new(big.Int).Add(pos, big.NewInt(1)), true)
+		c.doDelegation("Undelegate", nil, 101, gw, as0, st1, c.opStrs[0], pos, true)
+	}
 	for i := 0; i < 6; i++ {
 		c.doEndBlockItems(nil)
 	}
@@ -1589,7 +1626,12 @@ func runC09(a *Args) error {
 					base = new(big.Int).Quo(c09Dec(dl.UndelegatableShare), big.NewInt(1_000_000_000_000_000_000))
 				}
 			}
-			c.doDelegation("Undelegate", nil, chain, caller, as, st, op, c.pickAmount(base), rng.Intn(12) != 0)
+			if pos := c.position(as, st, op); pos != nil && rng.Intn(3) == 0 {
+				base = new(big.Int).Add(pos, big.NewInt(int64(rng.Intn(3)-1)))
+				c.doDelegation("Undelegate", nil, chain, caller, as, st, op, base, true)
+			} else {
+				c.doDelegation("Undelegate", nil, chain, caller, as, st, op, c.pickAmount(base), rng.Intn(12) != 0)
+			}
 		case k < 76:
 			c.doAssociate(nil, chain, caller, st, c.pickOp(), false)
 		case k < 80:
